@@ -59,7 +59,17 @@ def normalise(s: Any, keep_random: bool = False) -> Any:
     if isinstance(s, (list, tuple)):
         return [normalise(x, keep_random) for x in s]
     if isinstance(s, dict):
-        return {str(k): normalise(v, keep_random) for k, v in s.items()}
+        # keys too (a detection added by add_condition is a dict key of the rule's dict form); keys that
+        # become equal after masking are kept apart by a counter in insertion order
+        out: dict[str, Any] = {}
+        for k, v in s.items():
+            nk = base = normalise(str(k), keep_random)
+            n = 1
+            while nk in out:
+                n += 1
+                nk = f"{base}#{n}"
+            out[nk] = normalise(v, keep_random)
+        return out
     if isinstance(s, (int, float, bool)) or s is None:
         return s
     return normalise(repr(s), keep_random)
